@@ -788,11 +788,25 @@ class History(object):
                 break
             tab = self.daemon.open_fds() or {}
             if not any(p.link in tab.values() for p in ms.q):
-                # released without a disconnect: equally fine
-                self.step("  the bus no longer holds the unclaimed descriptors of %s" % self.name_of(S))
-                self.part.count("surplus-released-without-disconnect")
-                ms.q = []
-                break
+                # either the connection has just been dropped (we have not noticed yet) or the bus released the
+                # descriptors and kept the connection: both are fine, find out which
+                try:
+                    S.barrier()
+                    alive = True
+                except client.Closed:
+                    alive = False
+                if not alive:
+                    self.await_gone(S.unique)
+                    self.forget(S)
+                    self.part.count("pending-timeouts-enforced")
+                    self.check_held("surplus-keepalive")
+                    break
+                tab = self.daemon.open_fds() or {}
+                if not any(p.link in tab.values() for p in ms.q):
+                    self.step("  the bus no longer holds the unclaimed descriptors of %s but keeps the connection" % self.name_of(S))
+                    self.part.count("surplus-released-without-disconnect")
+                    ms.q = []
+                    break
             spec = Spec(kind="call-noreply", flags=1, h=1, relation="eq")
             spec.dest, spec.dest_class = dest()
             spec.fds = self.new_fds(1)
